@@ -1,18 +1,23 @@
 #!/bin/bash
-# usage: tools/run_seed.sh <seed id e.g. C01-m1> [tier]  -- apply the seeded change to /repo, run its property's check, undo.
+# usage: tools/run_seed.sh <seed id e.g. C01-m1> [tier]
+# Applies the seeded change in a scratch worktree of /repo HEAD (never in /repo itself), runs its property's check against that
+# worktree with its own build and output directories, records seeded/<id>/result.json, removes the scratch copies.
 set -u
 id=$1; tier=${2:-quick}; prop=${id%%-*}
 d=/verif/seeded/$id
-cd /repo || exit 2
-git diff --quiet || { echo "repo dirty"; exit 2; }
-git apply $d/patch.diff || { echo "$id: patch does not apply"; exit 2; }
-cd /verif && out=$(./vcheck "$prop" "$tier" 2>&1); rc=$?
-git -C /repo checkout -- .
+wt=/tmp/rs.$id
+rm -rf $wt $wt.build $wt.out; git -C /repo worktree prune
+git -C /repo worktree add -q --detach $wt HEAD || exit 2
+trap "git -C /repo worktree remove --force $wt 2>/dev/null; rm -rf $wt $wt.build $wt.out" EXIT
+git -C $wt apply $d/patch.diff || { echo "$id: patch does not apply"; exit 2; }
+mkdir -p $wt.build; cp -r /verif/.build/target $wt.build/target 2>/dev/null
+cd /verif && out=$(VERIF_REPO=$wt VERIF_BUILD=$wt.build VERIF_OUT=$wt.out ./vcheck "$prop" "$tier" 2>&1); rc=$?
 nv=$(echo "$out" | grep -c "^VIOLATION")
 echo "$id: check exit=$rc violations(classes)=$nv  $(echo "$out" | grep -E "TOOL-ERROR" | head -1)"
 echo "$out" | grep "^VIOLATION" | head -2 | cut -c1-260
-python3 - "$d" "$rc" "$nv" "$tier" <<'PY'
+echo "$out" | grep "^DRIFT" | head -2 | cut -c1-200
+python3 - "$d" "$rc" "$nv" "$tier" "$(echo "$out" | grep -c '^DRIFT')" <<'PY'
 import json,sys
-d,rc,nv,tier=sys.argv[1:]
-json.dump({"check_exit":int(rc),"violation_classes":int(nv),"tier":tier,"detected":int(rc)==1},open(d+"/result.json","w"))
+d,rc,nv,tier,drift=sys.argv[1:]
+json.dump({"check_exit":int(rc),"violation_classes":int(nv),"tier":tier,"detected":int(rc)==1,"mech_drift_lines":int(drift)},open(d+"/result.json","w"))
 PY
